@@ -175,7 +175,7 @@ u_acc_second!(c12_union_acc_second__tr_tr16, Tr, Tr16, Tr16::new());
 u_count_first!(c12_union_count_first__tr_tr16, Tr, Tr16, Tr::new());
 // @h props=C12,C04 fuc=ArcUnion::strong_count,ArcUnionBorrow::strong_count,ArcBorrow::strong_count
 u_count_second!(c12_union_count_second__tr_tr16, Tr, Tr16, Tr16::new());
-// @h props=C12,C01,C04,C16 fuc=ArcUnion::clone,ArcBorrow::clone_arc,ArcUnion::ptr_eq
+// @h props=C12,C01,C04,C16 tier=thorough fuc=ArcUnion::clone,ArcBorrow::clone_arc,ArcUnion::ptr_eq
 u_clone_first!(c12_union_clone_first__tr_tr16, Tr, Tr16, Tr::new());
 // @h props=C12,C01,C04,C16 fuc=ArcUnion::clone,ArcBorrow::clone_arc,ArcUnion::ptr_eq
 u_clone_second!(c12_union_clone_second__tr_tr16, Tr, Tr16, Tr16::new());
@@ -199,7 +199,7 @@ u_count_first!(c12_union_count_first__tr8_tr8, Tr8, Tr8, Tr8::new());
 u_count_second!(c12_union_count_second__tr8_tr8, Tr8, Tr8, Tr8::new());
 // @h props=C12 tier=thorough fuc=ArcUnion::clone,ArcBorrow::clone_arc,ArcUnion::ptr_eq
 u_clone_first!(c12_union_clone_first__tr8_tr8, Tr8, Tr8, Tr8::new());
-// @h props=C12 fuc=ArcUnion::clone,ArcBorrow::clone_arc,ArcUnion::ptr_eq
+// @h props=C12 tier=thorough fuc=ArcUnion::clone,ArcBorrow::clone_arc,ArcUnion::ptr_eq
 u_clone_second!(c12_union_clone_second__tr8_tr8, Tr8, Tr8, Tr8::new());
 // @h props=C12,C05 tier=thorough fuc=ArcUnion::drop,Arc::from_raw,Arc::drop
 u_drop_first!(c12_union_drop_first__tr8_tr8, Tr8, Tr8, Tr8::new(), 1, 1);
@@ -223,9 +223,9 @@ u_count_second!(c12_union_count_second__z_s1, Z, S1, S1::any());
 u_clone_first!(c12_union_clone_first__z_s1, Z, S1, Z);
 // @h props=C12 tier=thorough fuc=ArcUnion::clone,ArcBorrow::clone_arc,ArcUnion::ptr_eq
 u_clone_second!(c12_union_clone_second__z_s1, Z, S1, S1::any());
-// @h props=C12,C05 fuc=ArcUnion::drop,Arc::from_raw,Arc::drop
+// @h props=C12,C05 tier=thorough fuc=ArcUnion::drop,Arc::from_raw,Arc::drop
 u_drop_first!(c12_union_drop_first__z_s1, Z, S1, Z, 0, 0);
-// @h props=C12,C05 fuc=ArcUnion::drop,Arc::from_raw,Arc::drop
+// @h props=C12,C05 tier=thorough fuc=ArcUnion::drop,Arc::from_raw,Arc::drop
 u_drop_second!(c12_union_drop_second__z_s1, Z, S1, S1::any(), 0, 0);
 
 // ---- pair tr64_z: ArcUnion<vrt::Tr64, Z>
@@ -271,7 +271,7 @@ gproof! { fn c12_union_eq_cross_variant_false() {
     core::mem::forget(u2);
 } }
 
-// @h props=C16 kind=panic site="abort" fuc=ArcUnion::clone
+// @h props=C16 tier=thorough kind=panic site="abort" fuc=ArcUnion::clone
 gpanic! { fn c16_union_clone_first_overflow_aborts() {
     let n: usize = kani::any();
     kani::assume(n > isize::MAX as usize);
